@@ -669,6 +669,9 @@ def cache_session(args):
                                                disable_infer_genes=bool(o.get("complete_genedb")))
                     p2["db"] = dbp
                 argv, prefixes = make_argv(truth, p2, o, outdir, indir)
+                if a.get("opts", {}).get("resume"):
+                    # continue the (killed) earlier run into this folder
+                    argv = ["--resume", "-o", outdir]
                 # "<shared>" in extra options stands for a folder that all actors of the session have in common
                 argv = [x.replace("<shared>", os.path.join(rundir, "shared_folder")) if isinstance(x, str) else x for x in argv]
                 actors.append({"argv": argv, "log": "step%d_%s.log" % (si, a["out"])})
